@@ -248,7 +248,7 @@ impl Prop for C11 {
             .prop_flat_map(move |((min_nr, max_nr), (min_secs, max_secs), archive, n_pub, key_start)| {
                 let op = prop_oneof![
                     6 => (0..n_pub, vec(el(), 1..5)).prop_map(|(publisher, els)| COp::P(POp::Delta { publisher, els })),
-                    14 => (0..n_pub, 0u8..6, 1u8..8).prop_map(|(publisher, name, content)| COp::Put { publisher, name, content }),
+                    14 => (0..n_pub, 0u8..6, prop_oneof![3 => 1u8..8, 2 => 8u8..12]).prop_map(|(publisher, name, content)| COp::Put { publisher, name, content }),
                     8 => Just(COp::P(POp::RrdpUpdate)),
                     4 => prop_oneof![1u16..20, 20u16..300, 300u16..900].prop_map(|secs| COp::P(POp::Advance { secs })),
                     1 => Just(COp::P(POp::SessionReset)),
